@@ -9,8 +9,8 @@ META = dict(
     level_text='bounded histories of the real HostConnection / HostConnectionPool code driven by real ResponseFutures: every interleaving of send / respond / client timeout / late response / defunct / replacement task / shutdown (and shutdown during a blocking connect) is a forked symbolic choice, each path decided by z3; accounting steps of both pool classes from symbolic counter states',
     level_note='task-level schedules plus pre-emption at the blocking connection_factory call; transport, timers, executor are harness fakes; request capacity is made small (2-3 streams) so that capacity limits are reached within the bound',
     technique='symbolic execution (sx proxies, LIA) of the real pool code over solver-enumerated event interleavings + z3 validity per path; inductive accounting steps from symbolic counter states',
-    bounds=dict(quick='<= 3 requests, histories of <= 5 events + drain, stream capacity 2..3, orphan threshold 1..2; borrow/return steps with in_flight, max_request_id in [0, 32767] symbolic',
-                thorough='<= 3 requests, histories of <= 7 events + drain'),
+    bounds=dict(quick='<= 3 requests, histories of <= 7 events + drain, stream capacity 2..3, orphan threshold 1..2; borrow/return steps with in_flight, max_request_id in [0, 32767] symbolic',
+                thorough='<= 3 requests, histories of <= 8 events + drain'),
     assumptions=['each server answer arrives at most once per stream'],
     stubs=['transport/timers/executor: harness kit', 'protocol codec: identity'],
     outside=['OS-thread pre-emption inside critical sections'],
@@ -125,7 +125,7 @@ def h_v2_pool(V, steps=4):
 
 def jobs(tier):
     th = tier == 'thorough'
-    steps = 7 if th else 5
+    steps = 8 if th else 7
     o = dict(arith='int', max_seconds=1500 if th else 250)
     js = [Job('borrow-step', 'h_borrow_step', {}, dict(arith='int')),
           Job('v2-pool', 'h_v2_pool', dict(steps=6 if th else 4), dict(arith='int'))]
